@@ -51,7 +51,7 @@ theorem C12_signal_read :
 
 /-- every capability name of the regenerated table is a simple word (no blank, quote, parenthesis, `#`) -/
 theorem capability_names_simple :
-    ∀ n ∈ reqValues T "capability" "name", SimpleW n ∧ '#' ∉ n := by decide +kernel
+    ∀ n ∈ reqValues T "capability" "name", SimpleW n ∧ '#' ∉ n ∧ n.getLast? ≠ some ',' := by decide +kernel
 
 /-- **Capability rules of any length** (symbolic, no enumeration): for every qualifier and EVERY list of
 capability names drawn from the table — any length, any order, repetitions included — the reference
@@ -77,8 +77,8 @@ reference reader finds in the printed text exactly that path as the subject, the
 owner flag, and the permission string the rule states (read by `readMode`: letters of the access
 table plus at most one exec transition). Paths with a blank are the known class `K_spaceUnquoted`. -/
 theorem C12_file_all_paths (audit deny owner : Bool) (p : Text) (acc : List Text)
-    (hp : PathHead p) (hps : SimpleW p ∧ '#' ∉ p) (hpt : isPathTok p = true)
-    (hm : SimpleW acc.flatten ∧ '#' ∉ acc.flatten) :
+    (hp : PathHead p) (hps : SimpleW p ∧ '#' ∉ p ∧ p.getLast? ≠ some ',') (hpt : isPathTok p = true)
+    (hm : SimpleW acc.flatten ∧ '#' ∉ acc.flatten ∧ acc.flatten.getLast? ≠ some ',') :
     Ref.read T (renderRule (fileRule audit deny owner p acc) (padOf [])) =
       (readMode T acc.flatten).map (fun a =>
         mkR "file" { audit := audit, deny := deny, owner := owner } [.b owner, .s p, .l a, .s []]) :=
